@@ -181,6 +181,9 @@ pub fn execute(scen: &'static Scenario, input: RunInput) -> RunOutput {
     LATE_VIOLATION.with(|l| *l.borrow_mut() = None);
     DELIBERATE.with(|d| d.set(0));
     anemo::verif::set_active(true);
+    // (a run that ended early may have left its scheduling-point hook installed)
+    anemo::verif::set_sched_hook(None);
+    tokio::runtime::sim_sched::clear_holds();
     crate::vclock::activate();
     let sched = SchedMode::for_run(&input);
     let reorderings = std::rc::Rc::new(std::cell::Cell::new(0u64));
